@@ -489,7 +489,13 @@ def extract_block(item):
     first statement containing `start` … up to, not including, the first later statement containing `stop`),
     outputs [{"var": name, "type": T}] (name: sanitized variable, "ret" for the return value, "eff_X" for an effect),
     leaf_types {leaf: T}, type (default leaf type, else α), skip [needles], havoc [needles], effects {callee: X},
-    opaque {python expression: leaf}, no_return (Lean term for `ret` on a path that falls off the end)."""
+    opaque {python expression: leaf}, no_return (Lean term for `ret` on a path that falls off the end),
+    effect_arg {X: argument index} (output `effarg_X`), lenient (untranslatable simple statements / tests / nested loops
+    become unknowns instead of making the item unavailable), strict (false: extra assigned variables are allowed),
+    type_params / alpha_from_section (binders supplied by the template), list_mode (lists of string constants:
+    literals, `[*xs, "a"]`, `xs + [...]`, `xs.append(v)`), calls {callee: lean function}. Statement forms: assignments
+    (names, attributes, subscripts, tuples, dict literals), augmented assignments, if/elif/else, return (also tuples ->
+    ret_0, ret_1), break / continue / raise (outputs `brk`, `cont`, `raised`), with, assert / pass / docstrings."""
     path = os.path.join(REPO, item["file"])
     src = open(path).read()
     tree = ast.parse(src)
